@@ -56,6 +56,7 @@ type Task struct {
 	// marks): while it is positive the task is preempted only at lock acquisitions, never at plain yields
 	lockDepth   int
 	pendingDrop bool
+	wokeAt      time.Duration // simulated instant at which the last real blocking operation fired
 	fn      func(*Task)
 	which   string
 	started bool
@@ -669,6 +670,7 @@ func (s *Sim) AfterBlock(handle interface{}, which string) {
 	s.mu.Lock()
 	p := s.poisoned
 	t.state = tsRunnable
+	t.wokeAt = time.Since(s.start)
 	t.which = which
 	t.point = t.point + "." + which
 	s.mu.Unlock()
@@ -686,6 +688,7 @@ func (s *Sim) AfterBlock(handle interface{}, which string) {
 		runtime.Goexit()
 	}
 	s.BlockWakes.Add(t.point, 1)
+	s.Rec("woke", t.point, "", int64(t.wokeAt))
 }
 
 //go:norace
